@@ -187,6 +187,10 @@ def _next_step(r, model, fs, ns, nfaults):
             st["do_spatial_diff"] = True
         if st["via"] == "kwargs" and r.random() < 0.3:
             st["comp_level"] = r.choice([1, 9])
+        if r.random() < 0.12:
+            st.update({"via": "default", "chunk_samples": int(round(fs)), "chunk_duration": 1.0})      # no parameters at all: the dependency's defaults (1 s chunks)
+            st.pop("do_spatial_diff", None)
+            st.pop("comp_level", None)
     if op == "recompress":
         # compress again over an existing complete pair: with the parameters that pair was made with, or with others
         # (another chunking / codec setting: the header that is rewritten then differs from the published one)
@@ -210,6 +214,13 @@ def _next_step(r, model, fs, ns, nfaults):
         cs, cd = _chunking(r, ns, fs)
         st = {"op": "compress", "replace_content": r.randrange(1 << 30), "chunk_samples": cs, "chunk_duration": cd,
               "n_threads": r.choice([1, 2, 4]), "check_after": r.random() < 0.7, "via": "kwargs"}
+        if r.random() < 0.5:
+            # ... of another length (re-exported, cut, extended), its metadata with it
+            st["new_ns"] = max(1000, min(40000, r.choice([ns // 2, ns - 1, ns + 1, ns + ns // 3, 2 * ns, r.randrange(1000, 40000)])))
+            cs, cd = _chunking(r, st["new_ns"], fs)
+            st.update({"chunk_samples": cs, "chunk_duration": cd})
+        if r.random() < 0.4:
+            st.update({"via": "default", "chunk_samples": int(round(fs)), "chunk_duration": 1.0})      # no parameters: the dependency's defaults (1 s chunks)
         op = "compress"
     if op == "compress":
         st["keep_original"] = r.random() < 0.5
@@ -264,6 +275,7 @@ class World:
         self.w = w
         self.nc = w["nap"] + 1
         self.fs = world.meta_fs(w["fixture"])
+        self.ns = w["ns"]           # current length (the operator may replace the recording by one of another length)
         self.O = world.make_data(w["data_seed"], w["ns"], w["nap"])
         self.Obytes = self.O.tobytes()
         sf = "none" if w.get("meta_form") == "none" else "complete"
@@ -287,14 +299,23 @@ class World:
         self.meta_sha = sha1_file(self.meta)
         self.knobs = dict(knobs)
 
-    def replace_content(self, data_seed):
+    def replace_content(self, data_seed, new_ns=None):
         """The operator puts another recording of the same shape under the same name (the oracle's pristine copy follows).
         Half of the time the replacement keeps an OLD modification time, as `mv`, `cp -p`, `rsync -t` or a restore from
         backup do: a file's age says nothing about its content."""
-        self.O = world.make_data(data_seed, self.w["ns"], self.w["nap"])
+        if new_ns:
+            self.ns = int(new_ns)
+        self.O = world.make_data(data_seed, self.ns, self.w["nap"])
         self.Obytes = self.O.tobytes()
         old = self.bin.stat()
         self.bin.write_bytes(self.Obytes)
+        if new_ns:
+            # another length: its metadata comes with it (same form as before)
+            sf = "none" if self.w.get("meta_form") == "none" else "complete"
+            txt = world.make_meta_text(self.w["fixture"], self.w["nap"], self.ns, size_fields=sf)
+            self.meta.write_text(txt)
+            (self.oracle / f"{STEM}.ap.meta").write_text(txt)
+            self.meta_sha = sha1_file(self.meta)
         if data_seed % 2 == 0:
             os.utime(self.bin, ns=(old.st_atime_ns, old.st_mtime_ns - 10_000_000_000))
         (self.oracle / f"{STEM}.ap.bin").write_bytes(self.Obytes)
@@ -370,7 +391,7 @@ def _run(plan, base):
         i = 0
         while i < nsteps:
             if auto:
-                st = _next_step(r, model, W.fs, w["ns"], nfaults if tier != "thorough" else nfaults - 1)     # thorough: up to three faults per history
+                st = _next_step(r, model, W.fs, W.ns, nfaults if tier != "thorough" else nfaults - 1)     # thorough: up to three faults per history
                 if st is None:
                     break
             else:
@@ -421,6 +442,9 @@ def _exec_step(W, st, model, log, stats, bump, seed, progress=False):
                       "check_after_compress": st["check_after"]})
     else:
         W.set_config()
+    if st.get("replace_content") is not None:
+        W.replace_content(st["replace_content"], st.get("new_ns"))
+        bump("probes", "source_replaced_then_compressed_again")
     fault = st.get("fault")
     pool_seed = seed % 1000
     st["_u"] = W.U
@@ -429,9 +453,6 @@ def _exec_step(W, st, model, log, stats, bump, seed, progress=False):
         fr = rng_of(fault["rseed"])
         fault = session.place_fault(fr, dr["events"], eligible, kinds=("kill", "kill", "io_error", "io_error", "torn", "torn", "interrupt", "short"))
         st["fault"] = fault
-    if st.get("replace_content") is not None:
-        W.replace_content(st["replace_content"])
-        bump("probes", "source_replaced_then_compressed_again")
     before = W.observe()
     src_sha = {p.name: sha1_file(p) for p in (W.bin, W.cbin, W.ch) if p.exists()}
     res = session.run_step(W.root, do_step, st, fault, W.cfg, pool_seed, read_events=True)
@@ -540,7 +561,7 @@ def _exec_step(W, st, model, log, stats, bump, seed, progress=False):
                 # the scratch copy is what the caller goes on to read: it must open as the same recording
                 try:
                     ss = spikeglx.Reader(outp)
-                    ok_ = tuple(ss.shape) == (W.w["ns"], W.nc) and np.array_equal(ss[0:5, :], spikeglx.Reader(W.oracle / f"{STEM}.ap.bin")[0:5, :])
+                    ok_ = tuple(ss.shape) == (W.ns, W.nc) and np.array_equal(ss[0:5, :], spikeglx.Reader(W.oracle / f"{STEM}.ap.bin")[0:5, :])
                     ss.close()
                 except Exception as e:
                     raise Violation("C02.R", f"{sig0}:scratch-open:{type(e).__name__}", f"the scratch copy does not open: {e!r} | " + ctx)
@@ -548,7 +569,7 @@ def _exec_step(W, st, model, log, stats, bump, seed, progress=False):
                     raise Violation("C02.R", f"{sig0}:scratch-open-differs", "the scratch copy opens as a different recording | " + ctx)
         if op == "inplace_cycle" and not (out["ok"]["same"] and out["ok"]["is_mtscomp"]):
             raise Violation("C02.T", f"{sig0}:cycle-read", "reads through the carried Reader differ across the in-place cycle | " + ctx)
-        want_shape = [W.w["ns"], W.nc]
+        want_shape = [W.ns, W.nc]
         if op == "inplace_cycle" and any(list(sh) != want_shape for sh in out["ok"]["shapes"]):
             raise Violation("C02.T", f"{sig0}:cycle-shape", f"shape through the carried Reader changed across the in-place cycle: {out['ok']['shapes']} (recording is {want_shape}) | " + ctx)
         if op == "compress" and list(out["ok"].get("shape_after", want_shape)) != want_shape:
@@ -630,7 +651,7 @@ def _rd(sr, n, c):
 def _read_checks(W, model, rsel, log, stats, bump):
     """T and R: every entry path that exists resolves to the recording and reads equal the
     uncompressed original (reference copy) for every selector."""
-    ns, nc = W.w["ns"], W.nc
+    ns, nc = W.ns, W.nc
     cs = model.get("chunk_samples") or ns
     cache = W.knobs["cache_size"]
     W.set_config()
